@@ -11,6 +11,8 @@ import (
 
 type oracleC01 struct {
 	NopOracle
+	preForms  c14Snap
+	probeFlip bool
 	pre      storSnap
 	preBal   Bal
 	proved   map[string]bool // pkey -> the account validly proved (joined) this file at least once
@@ -19,7 +21,68 @@ type oracleC01 struct {
 
 func (o *oracleC01) Start(w *World) { o.proved = map[string]bool{} }
 
-func (o *oracleC01) BeforeStep(w *World, st *Step, msgs []sdk.Msg) { o.pre = readStor(w) }
+func (o *oracleC01) BeforeStep(w *World, st *Step, msgs []sdk.Msg) {
+	o.pre = readStor(w)
+	o.preForms = readForms(w)
+	if len(msgs) == 1 {
+		if pp, ok := msgs[0].(*storagetypes.MsgPostProof); ok {
+			o.selfChosenProbe(w, pp)
+		}
+	}
+}
+
+// selfChosenProbe is a counterfactual branch: for a first submission by a non-member it runs the
+// real handler on two discarded copies of the state with honest proofs of two *different* chunk
+// indices, each claiming its own index. If both are accepted the submitter, not the chain,
+// chooses which chunk is proven.
+func (o *oracleC01) selfChosenProbe(w *World, pp *storagetypes.MsgPostProof) {
+	v := judgeProof(&o.pre, pp)
+	if !v.fileFound || v.listed || !v.room {
+		return
+	}
+	var fi *FileInst
+	for _, f := range w.files {
+		if f.Merkle != nil && string(f.Merkle) == string(pp.Merkle) && int64(len(f.Data)) == v.f.FileSize {
+			fi = f
+		}
+	}
+	if fi == nil || len(fi.Chunks) < 2 {
+		return
+	}
+	a, b := int64(0), int64(len(fi.Chunks)-1)
+	if len(fi.Chunks) > 2 && o.probeFlip {
+		a = 1
+	}
+	o.probeFlip = !o.probeFlip
+	accepted := 0
+	for _, idx := range []int64{a, b} {
+		item, hl, ok := honestProof(fi, idx)
+		if !ok {
+			return
+		}
+		m := &storagetypes.MsgPostProof{Creator: pp.Creator, Item: item, HashList: hl, Merkle: pp.Merkle, Owner: pp.Owner, Start: pp.Start, ToProve: idx}
+		h := w.node().app.MsgServiceRouter().Handler(m)
+		if h == nil {
+			return
+		}
+		cctx, _ := w.Ctx().CacheContext()
+		func() {
+			defer func() { _ = recover() }()
+			res, err := h(cctx, m)
+			if err != nil || res == nil {
+				return
+			}
+			var r storagetypes.MsgPostProofResponse
+			if r.Unmarshal(res.Data) == nil && r.Success {
+				accepted++
+			}
+		}()
+	}
+	w.Probe("self_chosen_challenge_probe")
+	if accepted == 2 {
+		w.Violate("C01:accepted-invalid:self-chosen-challenge", "a non-member's first PostProof on %x is accepted for chunk %d and equally for chunk %d: the submitter chooses which chunk it proves, the chain challenges nothing", pp.Merkle, a, b)
+	}
+}
 
 // proofVerdict is the reference decision for a PostProof message on a pre-state.
 type proofVerdict struct {
@@ -126,6 +189,28 @@ func (o *oracleC01) AfterStep(w *World, st *Step, msgs []sdk.Msg, res *abci.Resp
 			}
 		}
 	}
+	// staying credited through attestation needs a completed quorum of distinct named providers
+	if len(msgs) == 1 {
+		if at, ok := msgs[0].(*storagetypes.MsgAttest); ok {
+			key := pkey(at.Prover, at.Merkle, at.Owner, at.Start)
+			pr, had := o.pre.proofs[key]
+			qr, has := post.proofs[key]
+			if had && has && qr.LastProven != pr.LastProven {
+				form, exists := o.preForms.attest[key]
+				cnt := int64(0)
+				if exists {
+					cnt = int64(len(form.signed))
+					if contains(form.named, at.Creator) && !form.signed[at.Creator] {
+						cnt++
+					}
+				}
+				w.Probe("attest_refresh")
+				if !exists || !contains(form.named, at.Creator) || cnt < o.preForms.minPass {
+					w.Violate("C01:credited-by-incomplete-quorum", "the proof deadline of %s was refreshed by an attestation with %d distinct named signatures (minimum %d, form exists %v)", at.Prover, cnt, o.preForms.minPass, exists)
+				}
+			}
+		}
+	}
 	// membership changes must have a cause
 	for k, qf := range post.files {
 		pf, existed := o.pre.files[k]
@@ -209,7 +294,7 @@ func init() {
 		NewGen:    func() Generator { return &genStorage{profile: "proofs"} },
 		NewOracle: func() Oracle { return &oracleC01{} },
 		Runs:      map[string]int{"quick": 500, "thorough": 12000},
-		Required:  []string{"proof_accepted", "proof_rejected:newcomer", "proof_rejected:member", "reject_then_reward_block"},
+		Required:  []string{"proof_accepted", "proof_rejected:newcomer", "proof_rejected:member", "reject_then_reward_block", "self_chosen_challenge_probe", "attest_refresh"},
 		Rule: "online-generated storage histories (1-4 files of boundary sizes, chunk size in {1,7,64,1024}, proof/check windows 2..15, 2-6 provers diligent/lazy/cheating, 12 malformed/stale payload kinds by members, newcomers and outsiders, swarm network faults); " +
 			"non-trivial = at least one PostProof was accepted and judged; distinct = distinct (message kind, outcome) sequences",
 	})
